@@ -21,6 +21,12 @@ Theorem C06_base_timeout_range : forall timeout maxtimeout now ms,
 Proof. exact server_timeout_range. Qed.
 Print Assumptions C06_base_timeout_range.
 
+(* ares_metric_timestamp (generated, switch over the bucket kind): no UB for clock values in range *)
+Theorem C06_metric_timestamp_no_ub : forall bucket is_previous now_sec,
+  - 2 ^ 62 <= now_sec < 2 ^ 62 -> exists ts, c_ares_metric_timestamp bucket is_previous now_sec = Ok ts.
+Proof. exact metric_timestamp_ok. Qed.
+Print Assumptions C06_metric_timestamp_no_ub.
+
 (* no undefined behaviour in ares_calc_query_timeout for EVERY size_t value of the base
    timeout, server count, try_count, maxtimeout and jitter amount (in particular every legal
    option value and every try_count the retry machine can reach) *)
